@@ -85,6 +85,14 @@ def make_rows(rng, fmt, n):
     """returns rows of literal strings and the values they denote"""
     if fmt == "tum":
         t = np.sort(rng.uniform(0, 1e4, size=n)) if rng.random() < .5 else 1.5e9 + np.cumsum(rng.random(n))
+        if rng.random() < .12 and n >= 2:
+            # rows sharing a stamp (two sensors logged into one file, a repeated last message),
+            # rows that are not in chronological order: the convention does not forbid either
+            k = int(rng.integers(1, n))
+            if rng.random() < .7:
+                t[k] = t[k - 1]
+            else:
+                t[[k - 1, k]] = t[[k, k - 1]]
         p = rng.normal(size=(n, 3)) * 10.0**rng.uniform(-3, 6)
         if rng.random() < .3:
             p = np.round(p)
@@ -96,6 +104,9 @@ def make_rows(rng, fmt, n):
         vals = np.array([np.hstack([R[k], p[k].reshape(3, 1)]).reshape(-1) for k in range(n)])
     else:  # euroc
         t = (1.4e18 + np.cumsum(rng.integers(10**6, 10**8, size=n))).astype(np.int64)
+        if rng.random() < .12 and n >= 2:
+            k = int(rng.integers(1, n))
+            t[k] = t[k - 1]  # two rows with the same stamp
         p = rng.normal(size=(n, 3)) * 10.0**rng.uniform(-3, 3)
         q = unit_quats(rng, n)
         extra = int(rng.integers(0, 10))
